@@ -186,6 +186,11 @@ func compareE2E(ec e2eCase, model string) string {
 	if rs != ms {
 		return "diagnostic of another stage"
 	}
+	// a PASTE without a name is reported with one message text by the recursion check (model class nameMissing) and by
+	// the expansion (model class inPaste); the real side cannot tell the two apart at a PASTE directive
+	if rs == "paste" && rc == "inPaste" && mc == "nameMissing" {
+		mc = "inPaste"
+	}
 	if rc != mc {
 		return "diagnostic class differs"
 	}
